@@ -27,6 +27,9 @@ type Tok struct {
 	R int    // request ordinal that produced it (root tokens carry the request's)
 }
 
+// Ev is the payload of one subscription source event.
+type Ev struct{ N int }
+
 // StampV is the internal value of the custom scalar Stamp. Mode selects a
 // serialisation fault decided by the resolver that produced it.
 type StampV struct {
@@ -558,14 +561,22 @@ func (w *World) resolverInner(coord string) graphql.FieldResolveFn {
 		w.gate(rc, "resolver:"+coord, path)
 		defer rc.logf("R-" + path)
 
-		fault := rc.Faults["R@"+path]
+		// subscription events: the payload (root value) tags values and faults
+		evTag := ""
+		if e, ok := p.Info.RootValue.(Ev); ok {
+			evTag = "~ev" + strconv.Itoa(e.N)
+		}
+		fault := rc.Faults["R@"+path+evTag]
+		if fault == "" {
+			fault = rc.Faults["R@"+path]
+		}
 		if fault == "" {
 			fault = rc.Faults["R@*"]
 		}
 		if fault == "" && rc.AllThunk {
 			fault = FThunk
 		}
-		val := func() interface{} { return w.gen(rc, p.Info.ReturnType, coord, path, p.Args) }
+		val := func() interface{} { return w.gen(rc, p.Info.ReturnType, coord, path+evTag, p.Args) }
 		if fault != "" {
 			rc.fire(fault, path)
 		}
